@@ -615,3 +615,153 @@ Definition c06_edispatch_case (sync : bool) (nworkers : nat) (ranks tasks bad : 
          | Some _ => true
          end ]
   + 64 * match r with Some _ => 0 | None => S (efirst_disabled c06_f fl al true m cs s0) end.
+
+
+(* ======================================================================================
+   The CONSUMER of the root's iterator (the caller of iter_unordered on rank 0).
+   _mpi_root_task is a generator: between receiving a result and answering the worker (next task
+   or sentinel) it is SUSPENDED at `yield result` and resumes only when the consumer asks for the
+   next item.  Every caller in the library exhausts the iterator (dict comprehension, deque, for
+   loop, optionally through utils.logging.Indicator when progress=True); the protocol above is
+   that case.  A consumer that stops after its k-th item (a wrapper that breaks once it has seen
+   the expected number of items, itertools.islice, zip with a shorter first argument ...) never
+   resumes the generator: the answer to the worker that delivered the k-th result is never sent,
+   nor any later one, and the root never enters the closing collective.
+
+   [qstop = None]: the consumer is still consuming - the steps of the protocol above, as long as
+   they do not deliver the k-th item.  The k-th item is delivered by [q_stop_recv] (a worker's
+   result: received, yielded, NOT answered) or [q_stop_fallback] (a task the root ran itself);
+   [qstop = Some (Some i)] / [Some None] remembers which.  Afterwards the root makes no move in
+   this protocol, the workers go on ([wstep]). *)
+Inductive qchoice := QRun (c : choice) | QStopRecv (i : nat) | QStopFallback.
+
+Section DispatchQ.
+  Context {T R : Type}.
+  Context (f : T -> R).
+  Context (allowed : nat -> bool).
+  Context (fb : bool).
+
+  Record qst := mkQ { qs : st T R; qstop : option (option nat) }.
+
+  (* the worker moves of [step] *)
+  Inductive wstep : st T R -> st T R -> Prop :=
+  | w_task i c p ws g r w t ms :
+      nth_error ws i = Some w -> fin w = false -> inb w = Task t :: ms ->
+      wstep (mkS c p ws g r) (mkS c p (upd i (mkW ms (outb w ++ [f t]) false) ws) g (r ++ [t]))
+  | w_eoq i c p ws g r w ms :
+      nth_error ws i = Some w -> fin w = false -> inb w = EOQ :: ms ->
+      wstep (mkS c p ws g r) (mkS c p (upd i (mkW ms (outb w) true) ws) g r).
+
+  Inductive qstep (m : mode) (k : nat) : qst -> qst -> Prop :=
+  | q_run s s' :
+      step f allowed fb m s s' -> length (got s') < k ->
+      qstep m k (mkQ s None) (mkQ s' None)
+  | q_stop_recv i a p ws g r w x xs :
+      nth_error ws i = Some w -> outb w = x :: xs -> root_ok m ws = true -> S (length g) = k ->
+      qstep m k (mkQ (mkS (RLoop (S a)) p ws g r) None)
+                (mkQ (mkS (RLoop (S a)) p (upd i (mkW (inb w) xs (fin w)) ws) (g ++ [x]) r) (Some (Some i)))
+  | q_stop_fallback t p ws g r :
+      fb = true -> root_ok m ws = true -> S (length g) = k ->
+      qstep m k (mkQ (mkS (RLoop 0) (t :: p) ws g r) None)
+                (mkQ (mkS (RLoop 0) p ws (g ++ [f t]) (r ++ [t])) (Some None))
+  | q_worker s s' who :
+      wstep s s' -> qstep m k (mkQ s (Some who)) (mkQ s' (Some who)).
+
+  Definition qinit (tasks : list T) (n : nat) : qst := mkQ (init tasks n) None.
+
+  Inductive qreach (m : mode) (k : nat) (s0 : qst) : qst -> Prop :=
+  | qreach_refl : qreach m k s0 s0
+  | qreach_step s s' : qreach m k s0 s -> qstep m k s s' -> qreach m k s0 s'.
+
+  Inductive qsteps (m : mode) (k : nat) : nat -> qst -> qst -> Prop :=
+  | qsteps_O s : qsteps m k 0 s s
+  | qsteps_S n s s' s'' : qstep m k s s' -> qsteps m k n s' s'' -> qsteps m k (S n) s s''.
+
+  (* nothing can move *)
+  Definition qstuck (m : mode) (k : nat) (s : qst) : Prop := forall s', ~ qstep m k s s'.
+  (* every worker is out of its loop or waits in recv(source=0) with nothing in flight to it *)
+  Definition qquiet (s : qst) : bool := forallb (fun w => is_nil (inb w) || fin w) (ws (qs s)).
+
+  (* ---- executable step ---- *)
+  Definition is_wchoice (c : choice) : bool := match c with CWTask _ | CWEoq _ => true | _ => false end.
+
+  Definition qstep_with (m : mode) (k : nat) (c : qchoice) (s : qst) : option qst :=
+    let b := qs s in
+    match c, qstop s with
+    | QRun c', None =>
+        match step_with f allowed fb m c' b with
+        | Some b' => if length (got b') <? k then Some (mkQ b' None) else None
+        | None => None
+        end
+    | QRun c', Some who =>
+        if is_wchoice c'
+        then match step_with f allowed fb m c' b with Some b' => Some (mkQ b' (Some who)) | None => None end
+        else None
+    | QStopRecv i, None =>
+        match pc b, nth_error (ws b) i with
+        | RLoop (S a), Some w =>
+            match outb w with
+            | x :: xs =>
+                if root_ok m (ws b) && (S (length (got b)) =? k)
+                then Some (mkQ (mkS (RLoop (S a)) (pend b) (upd i (mkW (inb w) xs (fin w)) (ws b)) (got b ++ [x]) (ran b))
+                               (Some (Some i)))
+                else None
+            | [] => None
+            end
+        | _, _ => None
+        end
+    | QStopFallback, None =>
+        match pc b, pend b with
+        | RLoop 0, t :: p =>
+            if fb && root_ok m (ws b) && (S (length (got b)) =? k)
+            then Some (mkQ (mkS (RLoop 0) p (ws b) (got b ++ [f t]) (ran b ++ [t])) (Some None))
+            else None
+        | _, _ => None
+        end
+    | _, _ => None
+    end.
+
+  Fixpoint qrun (m : mode) (k : nat) (cs : list qchoice) (s : qst) : option qst :=
+    match cs with
+    | [] => Some s
+    | c :: cs' => match qstep_with m k c s with Some s' => qrun m k cs' s' | None => None end
+    end.
+  Fixpoint qfirst_disabled (m : mode) (k : nat) (cs : list qchoice) (s : qst) : nat :=
+    match cs with
+    | [] => 0
+    | c :: cs' => match qstep_with m k c s with Some s' => S (qfirst_disabled m k cs' s') | None => 0 end
+    end.
+End DispatchQ.
+
+Arguments qst : clear implicits.
+
+(* ---------- correspondence checker for C06 (i''), a consumer that stops after k items ---------- *)
+(* as c06_dispatch_case (repaired algorithm, root fallback); [k] = the number of items after which
+   the root's consumer stops asking; [cs] = the communication log translated event by event (the
+   root's receive that is never answered is QStopRecv, the k-th task the root ran itself
+   QStopFallback); impl_got = what the consumer got, impl_ran = the tasks the job function was
+   called with on any rank, impl_ret = per rank (index = rank) whether the call came back.
+   The property says nothing about such a consumer (no entry point of the library stops early):
+   only flag0, the tie between model and implementation - the model run ends either after the
+   closing collective with the consumer still consuming (then every rank came back), or stopped
+   with every worker quiet, i.e. in a state in which nothing can move (Proofs: qquiet_stuck; then
+   only the root came back). *)
+Definition is_stopped {T R} (s : qst T R) : bool := match qstop s with Some _ => true | None => false end.
+
+Definition c06_qdispatch_case (sync : bool) (nworkers : nat) (ranks tasks : list nat) (k : nat)
+           (cs : list qchoice) (impl_got impl_ran : list nat) (impl_ret : list bool) : nat :=
+  let m := if sync then Sync else Eager in
+  let al := c06_allowed ranks in
+  let s0 := qinit (R := nat) tasks nworkers in
+  let r := qrun c06_f al true m k cs s0 in
+  code [ match r with
+         | Some s =>
+             nlist_eqb (got (qs s)) impl_got && nlist_eqb (nsort (ran (qs s))) (nsort impl_ran)
+             && (length impl_ret =? S nworkers)
+             && (if is_stopped s
+                 then qquiet s && (length impl_got =? k)
+                      && list_eqb Bool.eqb impl_ret (true :: repeat false nworkers)
+                 else is_done (pc (qs s)) && list_eqb Bool.eqb impl_ret (repeat true (S nworkers)))
+         | None => false
+         end ]
+  + 2 * match r with Some _ => 0 | None => S (qfirst_disabled c06_f al true m k cs s0) end.
